@@ -40,14 +40,31 @@ def _values(ctx, T):
         syms = [R.Boolean(D.svar(k) > 0) for k in range(nsym)]
         return R.Boolean, [("zero", R.Boolean.zero), ("one", R.Boolean.one), ("zero'", R.Boolean(False)), ("one'", R.Boolean(True))] + [(f"x{k}", v) for k, v in enumerate(syms)], None
     if T == "Log":
-        syms = [R.Log(D.svar(k)) for k in range(nsym)]
-        return R.Log, [("zero", R.Log.zero), ("one", R.Log.one), ("zero'", R.Log(-math.inf)), ("one'", R.Log(0.0))] + [(f"x{k}", v) for k, v in enumerate(syms)], "none"
+        # exact log-domain model: the score of x_k is log(r_k) with r_k a symbolic real > 0
+        if ctx.symbolic:
+            syms = [R.Log(S.LogNum(D.var(k, positive=True))) for k in range(nsym)]
+        else:
+            syms = [R.Log(math.log(float(D.var(k)))) if D.var(k) != 0 else R.Log(-math.inf) for k in range(nsym)]
+        return R.Log, [("zero", R.Log.zero), ("one", R.Log.one), ("zero'", R.Log(-math.inf)), ("one'", R.Log(0.0))] + [(f"x{k}", v) for k, v in enumerate(syms)], "lt0"
     raise KeyError(T)
 
 
 def _components(ctx, v):
     s = v.score if hasattr(v, "score") else v
+    if isinstance(s, S.LogNum):
+        return [s]
     return list(s) if isinstance(s, tuple) else [s]
+
+
+def _log_to_real(x):
+    "a Log score (LogNum, or a concrete float) as the positive real it is the logarithm of"
+    if isinstance(x, S.LogNum):
+        return x.r
+    if isinstance(x, float) and math.isinf(x) and x < 0:
+        return 0
+    if x == 0:
+        return 1
+    return math.exp(x)
 
 
 def _same(ctx, label, lhs, rhs, hyps=(), tol=0):
@@ -57,6 +74,10 @@ def _same(ctx, label, lhs, rhs, hyps=(), tol=0):
         return
     for i, (x, y) in enumerate(zip(a, b)):
         lab = f"{label}[{i}]" if len(a) > 1 else label
+        if isinstance(x, S.LogNum) or isinstance(y, S.LogNum):
+            T = ctx.D.term
+            ctx.eq_terms(lab + " [as positive reals]", T(_log_to_real(x)), T(_log_to_real(y)), hyps=hyps, tol=tol)
+            continue
         xi = isinstance(x, float) and math.isinf(x)
         yi = isinstance(y, float) and math.isinf(y)
         if xi or yi:
@@ -86,11 +107,11 @@ def laws(ctx):
     names = [n for n, _ in pool]
     vals = dict(pool)
     zero, one = vals["zero"], vals["one"]
-    skip_assoc_add = T == "Log"
+    skip_assoc_add = False
 
     def concrete_fold(*ns):
         "Log only: two concrete finite operands make numpy evaluate log/exp numerically (outside the uninterpreted model)"
-        return T == "Log" and sum(1 for n in ns if n.startswith("one")) >= 2
+        return False and T == "Log" and sum(1 for n in ns if n.startswith("one")) >= 2
 
     def run(label, f):
         ok, r = ctx.call(label, f, sig=f"{T}:{label.split('(')[0]}:exception")
@@ -170,11 +191,25 @@ def laws(ctx):
                     hyps = [s0.e <= 1]
                 elif s0 > 1:
                     continue
+            if stardom == "lt0":
+                if isinstance(s0, S.LogNum):
+                    hyps = [ctx.D.term(s0.r) < 1]
+                elif isinstance(s0, float) and not math.isinf(s0) and s0 >= 0:
+                    continue
             if stardom == "le0":
                 if isinstance(s0, S.SNum):
                     hyps = [s0.e <= 0]
                 elif not (isinstance(s0, float) and math.isinf(s0)) and s0 > 0:
                     continue
+            if ctx.symbolic:
+                # the star is only claimed on its convergence domain: restrict the path BEFORE running the code
+                # (assumptions are not retroactive); star instances come last in this body
+                from .. import engine as _E
+
+                if hyps and str(_E.ENG.check(*hyps)) != "sat":
+                    continue  # on this path the value lies outside the convergence domain
+                for h in hyps:
+                    _E.ENG._assert(h)
             st = run(f"star({n})", lambda: R.star(a))
             if st is None:
                 continue
